@@ -30,8 +30,13 @@ def patternOf (j : Json) : Except String Pattern := do
 def streamOpOf (j : Json) : Except String StreamOp := do
   return { pats := ← listOf patternOf (← field j "pats"), zero := ← listOf bool (← field j "zero") }
 
+/-- "fixes": the list of repairs applied to the tree under test, by name of the fix diff -/
 def variantOf (j : Json) : Except String Variant := do
-  return if (← bool (← field j "fixed")) then .fixed else .pristine
+  let fs ← listOf str (← field j "fixes")
+  for f in fs do
+    if !(["F11", "F14", "FC08a", "FC08b", "FC08c"].contains f) then throw s!"unknown fix {f}"
+  return { f11 := fs.contains "F11", f14 := fs.contains "F14", zeroPerOperand := fs.contains "FC08a",
+           extCsrLen := fs.contains "FC08b", loopAllDims := fs.contains "FC08c" }
 
 def rescaleOf (j : Json) : Except String Rescale := do
   return { inZp := ← int (← field j "in_zp"), outZp := ← int (← field j "out_zp"),
@@ -56,11 +61,12 @@ def result (fs : List Field) (r : Except Err (List Val)) (accepts : Option Bool 
   | .ok vs => Json.mkObj ([f, ("vals", jList valJ vs)] ++ a)
   | .error e => Json.mkObj ([f, ("raised", Json.str e.name)] ++ a)
 
-/-- args: {"cfg": [streamer], "op": streamop} -/
+/-- args: {"cfg": [streamer], "op": streamop, "fixes": [..]} -/
 def alu : Handler := fun j => do
   let cfg ← listOf streamerOf (← field j "cfg")
   let op ← streamOpOf (← field j "op")
-  return result (aluFields cfg) (aluVals cfg op) (some (regionAccepts cfg op))
+  let v ← variantOf j
+  return result (aluFields cfg) (aluVals v cfg op) (some (regionAccepts cfg op))
 
 def gkernelOf (j : Json) : Except String GKernel := do
   match (← arr j).toList with
@@ -81,7 +87,7 @@ def gkernelOf (j : Json) : Except String GKernel := do
     | s => throw s!"bad kernel {s}"
   | _ => throw "bad kernel"
 
-/-- args: {"cfg", "n", "fixed", "op": streamop, "generics": [["mac", null | [a,b]] | ["rescale", r] | ["add"] |
+/-- args: {"cfg", "n", "fixes", "op": streamop, "generics": [["mac", null | [a,b]] | ["rescale", r] | ["add"] |
 ["other"]], "i8out": bool} -/
 def gemmx : Handler := fun j => do
   let cfg ← listOf streamerOf (← field j "cfg")
@@ -92,7 +98,7 @@ def gemmx : Handler := fun j => do
                         i8out := ← bool (← field j "i8out") }
   return result (gemmxFields cfg n) (gemmxVals v cfg n op) (some (regionAccepts cfg s))
 
-/-- args: {"cfg", "fixed", "op": streamop, "kernel": ["notgeneric"] | ["add"] | ["other"] |
+/-- args: {"cfg", "fixes", "op": streamop, "kernel": ["notgeneric"] | ["add"] | ["other"] |
 ["rescale", down, in_zp, mult, out_zp, shift]} -/
 def xdma : Handler := fun j => do
   let cfg ← listOf streamerOf (← field j "cfg")
@@ -106,7 +112,7 @@ def xdma : Handler := fun j => do
       | s => throw s!"bad kernel {s}"
     | [_, d, a, b, c, e] => pure (XKernel.rescale (← bool d) (← int a) (← int b) (← int c) (← int e))
     | _ => throw "bad kernel"
-  return result (xdmaFields v cfg) (xdmaVals cfg { s := s, kernel := kernel }) (some (regionAccepts cfg s))
+  return result (xdmaFields v cfg) (xdmaVals v cfg { s := s, kernel := kernel }) (some (regionAccepts cfg s))
 
 def hwpe : Handler := fun _ => do
   return result hwpeFields (.ok hwpeVals)
